@@ -294,6 +294,8 @@ class ArgFactory:
         return t
 
     def int(self, name, lo=None, hi=None):
+        if self.scope is not None and name in self.scope:
+            return int(self.scope[name])     # small scope: an integer that controls a loop is pinned
         v = z3.Int(name)
         if lo is not None:
             self.ctx.assume(v >= lo)
